@@ -65,21 +65,21 @@ package vm
 //@ func (*vm.StorageChanges).append
 //@   verify
 //@   safety [C03]
-//@   requires recv [C03]: c != nil
+//@   requires recv: c != nil
 //@   modifies cell:[]byte, map:map[uint64][][]byte
 //@ end
 
 //@ func (*vm.StorageKey).JournalChanges
 //@   verify
 //@   safety [C03]
-//@   requires recv [C03]: k != nil
+//@   requires recv: k != nil
 //@   modifies cell:[]byte, map:map[uint64][][]byte, vm.StorageKey.changes, vm.StorageKey.nodeType
 //@ end
 
 //@ func (*vm.StorageKey).AddChild
 //@   verify
 //@   safety [C03]
-//@   requires recv [C03]: k != nil && child != nil && child.slot != nil
+//@   requires recv: k != nil && child != nil && child.slot != nil
 //@   ensures result [C03]: result1 == nil && result0 != nil && result0.slot != nil && (result0 == child || result0 == old(k.children[*child.slot][child.offset]))
 //@   modifies map:map[string]*vm.StorageKey, map:map[uint256.Int]map[uint8]*vm.StorageKey, map:map[uint8]*vm.StorageKey
 //@ end
@@ -87,136 +87,169 @@ package vm
 //@ func (*vm.StorageKey).Children
 //@   verify
 //@   safety [C03]
-//@   requires recv [C03]: k != nil
+//@   requires recv: k != nil
 //@ end
 
 //@ func (*vm.StorageKey).ChildrenIndices
 //@   verify
 //@   safety [C03]
-//@   requires recv [C03]: k != nil
+//@   requires recv: k != nil
 //@ end
 
 //@ func (*vm.StateChanges).saveBalance
 //@   verify
 //@   safety [C03]
-//@   requires recv [C03]: s != nil && newBalance != nil
-//@   modifies cell:[]byte, map:map[uint64][][]byte, vm.StorageKey.changes, vm.StorageKey.nodeType, map:map[common.Address]*vm.StorageKey, cell:uint8
+//@   requires recv: s != nil && newBalance != nil
+//@   modifies cell:[]byte, map:map[uint64][][]byte, vm.StorageKey.changes, vm.StorageKey.nodeType, map:map[common.Address]*vm.StorageKey
 //@ end
 
 //@ func (*vm.StateChanges).saveRawStateChange
 //@   verify
 //@   safety [C03]
-//@   requires recv [C03]: s != nil
+//@   requires recv: s != nil
 //@   modifies map:map[common.Address]map[uint256.Int]map[uint64]common.Hash, map:map[uint256.Int]map[uint64]common.Hash, map:map[uint64]common.Hash
 //@ end
 
 //@ func (*vm.StateChanges).findKey
 //@   verify
 //@   safety [C03]
-//@   requires recv [C03]: s != nil && slot != nil
+//@   requires recv: s != nil && slot != nil
 //@   ensures view [C03 C11]: result == s.index[account][*slot][offset][typeId]
 //@ end
 
 //@ func (*vm.StateChanges).addKey
 //@   verify
 //@   safety [C03]
-//@   requires recv [C03]: s != nil && slot != nil && key != nil && key.slot != nil
+//@   requires recv: s != nil && slot != nil && key != nil && key.slot != nil
 //@   modifies map:map[common.Address]map[uint256.Int]map[uint8]map[common.Hash]*vm.StorageKey, map:map[uint256.Int]map[uint8]map[common.Hash]*vm.StorageKey, map:map[uint8]map[common.Hash]*vm.StorageKey, map:map[common.Hash]*vm.StorageKey
 //@ end
 
 //@ func (*vm.StateChanges).saveKey
 //@   verify
 //@   safety [C03]
-//@   requires recv [C03]: s != nil && self != nil
+//@   requires recv: s != nil && self != nil
 //@   modifies map:map[common.Address]map[uint256.Int]map[uint8]map[common.Hash]*vm.StorageKey, map:map[uint256.Int]map[uint8]map[common.Hash]*vm.StorageKey, map:map[uint8]map[common.Hash]*vm.StorageKey, map:map[common.Hash]*vm.StorageKey, map:map[string]*vm.StorageKey, map:map[uint256.Int]map[uint8]*vm.StorageKey, map:map[uint8]*vm.StorageKey, map:map[common.Address]*vm.StorageKey
 //@ end
 
 //@ func (*vm.StateChanges).saveChange
 //@   verify
 //@   safety [C03]
-//@   requires recv [C03]: s != nil && self != nil
+//@   requires recv: s != nil && self != nil
 //@   modifies cell:[]byte, map:map[uint64][][]byte, vm.StorageKey.changes, vm.StorageKey.nodeType
 //@ end
 
 //@ func (*vm.StateChanges).Balance
 //@   verify
 //@   safety [C03]
-//@   requires recv [C03]: s != nil
+//@   requires recv: s != nil
 //@ end
 
 //@ func (*vm.StateChanges).FindKeyIndices
 //@   verify
 //@   safety [C03]
-//@   requires recv [C03]: s != nil
-//@   loop 0 invariant cursor-nonnil [C03]: cursor != nil
+//@   requires recv: s != nil
+//@   loop 0 invariant cursor-nonnil: cursor != nil
 //@ end
 
 //@ func (*vm.StateChanges).Variable
 //@   verify
 //@   safety [C03]
-//@   requires recv [C03]: s != nil
+//@   requires recv: s != nil
 //@ end
 
 //@ func (*vm.StateChanges).Slot
 //@   verify
 //@   safety [C03]
-//@   requires recv [C03]: s != nil
+//@   requires recv: s != nil
 //@ end
 
 //@ func (*vm.StateChanges).IndicesOfChanges
 //@   verify
 //@   safety [C03]
-//@   requires recv [C03]: s != nil
+//@   requires recv: s != nil
 //@ end
 
 //@ func (*vm.Call).ChildrenIndices
 //@   verify
 //@   safety [C03]
-//@   requires recv [C03]: c != nil
+//@   requires recv: c != nil
 //@ end
 
 //@ func (*vm.Call).ParentIndex
 //@   verify
 //@   safety [C03]
-//@   requires recv [C03]: c != nil
+//@   requires recv: c != nil
 //@ end
 
-//@ func (*vm.CallTree).add
+// ---------------------------------------------------------------------------
+// Call tree (C07, C08): well-formedness as seven separately named conjuncts, so that an unstable or
+// violated one is visible by name.
+//@ pred wfIndex(t) = forall i uint64 :: i < t.count ==> has(t.lookup, i) && t.lookup[i] != nil && t.lookup[i].Index == i
+//@ pred wfDense(t) = forall i uint64 :: i >= t.count ==> !has(t.lookup, i)
+//@ pred wfParent(t) = forall i uint64 :: i < t.count && t.lookup[i].Parent != nil ==> t.lookup[i].Parent.Index < i && t.lookup[t.lookup[i].Parent.Index] == t.lookup[i].Parent
+//@ pred wfChildren(t) = forall i uint64, k uint64 :: i < t.count && k < uint64(len(t.lookup[i].Children)) ==> t.lookup[i].Children[k] != nil && t.lookup[i].Children[k].Parent == t.lookup[i] && t.lookup[i].Children[k].Index < t.count && t.lookup[t.lookup[i].Children[k].Index] == t.lookup[i].Children[k]
+//@ pred wfSorted(t) = forall i uint64, k uint64 :: i < t.count && k + 1 < uint64(len(t.lookup[i].Children)) ==> t.lookup[i].Children[k].Index < t.lookup[i].Children[k+1].Index
+//@ pred wfListed(t) = forall i uint64 :: i < t.count && t.lookup[i].Parent != nil ==> (exists k uint64 :: k < uint64(len(t.lookup[i].Parent.Children)) && t.lookup[i].Parent.Children[k] == t.lookup[i])
+//@ pred wfCursor(t) = (t.current == nil || (t.current.Index < t.count && t.lookup[t.current.Index] == t.current)) && (t.count > 0 ==> t.root != nil && t.root == t.lookup[0]) && (t.count == 0 ==> t.current == nil && t.root == nil)
+//@ pred wfOwned(t) = forall i uint64, j uint64 :: i < t.count && j < t.count && i != j && t.lookup[i].Children != nil ==> allocated(t.lookup[i].Children) && obj(t.lookup[i].Children) != obj(t.lookup[j].Children)
+// WF: the conjuncts that are discharged on every run. wfChildren / wfSorted / wfListed / wfOwned (the
+// Children slices) are stated above but NOT claimed: add's preservation of them is not discharged by the
+// solvers within the budget (see DESIGN.md, C07), so they are not part of WF and nothing assumes them.
+//@ pred WF(t) = wfIndex(t) && wfDense(t) && wfParent(t) && wfCursor(t)
+
+//@ func (*vm.CallTree).add(c, from, to, data, value, gas)
 //@   verify
 //@   safety [C03]
-//@   requires recv [C03]: c != nil
+//@   requires recv: c != nil
+//@   requires no-wrap [C07]: c.count != 18446744073709551615
+//@   closure map:map[uint64]*vm.Call
+//@   invariant wf-index [C07]: wfIndex(c)
+//@   invariant wf-dense [C07]: wfDense(c)
+//@   invariant wf-parent [C07]: wfParent(c)
+//@   invariant wf-cursor [C07]: wfCursor(c)
+//@   ensures count [C07]: c.count == old(c.count) + 1
+//@   ensures pushed [C07 C08]: c.current != nil && fresh(c.current) && c.current == c.lookup[old(c.count)] && c.current.Index == old(c.count) && c.current.Parent == old(c.current)
+//@   ensures recorded [C08]: c.current.From == from && c.current.To == to && sameslice(c.current.Data, data) && c.current.Value == value && c.current.Gas == gas && c.current.Ret == nil && c.current.Err == nil && len(c.current.Children) == 0
+//@   ensures appended [C07 C08]: old(c.current) != nil ==> len(old(c.current).Children) == old(len(c.current.Children)) + 1 && old(c.current).Children[old(len(c.current.Children))] == c.current
 //@   modifies vm.CallTree.root, vm.CallTree.current, vm.CallTree.count, map:map[uint64]*vm.Call, vm.Call.Children, cell:*vm.Call
 //@ end
 
-//@ func (*vm.CallTree).exit
+//@ func (*vm.CallTree).exit(c, leftoverGas, ret, err)
 //@   verify
 //@   safety [C03]
-//@   requires recv [C03]: c != nil
+//@   requires recv: c != nil
+//@   invariant wf-index [C07]: wfIndex(c)
+//@   invariant wf-dense [C07]: wfDense(c)
+//@   invariant wf-parent [C07]: wfParent(c)
+//@   invariant wf-cursor [C07]: wfCursor(c)
+//@   ensures popped [C07]: (old(c.current) == nil ==> c.current == nil) && (old(c.current) != nil ==> c.current == old(c.current.Parent))
+//@   ensures outcome [C08]: old(c.current) != nil ==> old(c.current).RemainingGas == leftoverGas && sameslice(old(c.current).Ret, ret) && old(c.current).Err == err
+//@   ensures count [C07]: c.count == old(c.count)
 //@   modifies vm.CallTree.current, vm.Call.RemainingGas, vm.Call.Ret, vm.Call.Err
 //@ end
 
 //@ func (*vm.CallTree).ParentOf
 //@   verify
 //@   safety [C03]
-//@   requires recv [C03]: c != nil
+//@   requires recv: c != nil
 //@ end
 
 //@ func (*vm.CallTree).FindCall
 //@   verify
 //@   safety [C03]
-//@   requires recv [C03]: c != nil
+//@   requires recv: c != nil
 //@ end
 
 //@ func (*vm.CallTree).ChildrenOf
 //@   verify
 //@   safety [C03]
-//@   requires recv [C03]: c != nil
+//@   requires recv: c != nil
 //@ end
 
 //@ func (*vm.Tracer).CurrentCallIndex
 //@   verify
 //@   safety [C03]
-//@   requires recv [C03]: t != nil
+//@   requires recv: t != nil
 //@ end
 
 //@ func vm.NewTracer
@@ -242,7 +275,7 @@ package vm
 //@ func vm.NewBranchKey
 //@   verify
 //@   safety [C03]
-//@   requires slot [C03]: slot != nil
+//@   requires slot: slot != nil
 //@   ensures fresh [C03]: result != nil && result.slot == slot && result.offset == offset && result.typeId == typeId
 //@ end
 
